@@ -571,8 +571,9 @@ def check_accrej(rec):
 
 
 # ---------------------------------------------------------------------------------------------- 4 NUTS tree
-NUTS_MENU = [("scalar", 5, True), ("flat2", 1, True), ("flat2", 3, False), ("flat2", 6, True),
-             ("flat3", 4, True), ("dict3", 2, True), ("dict3", 5, False), ("nest4", 4, True)]
+# (layout, max_tree_depth, bias_transition): one XLA compilation each (max_tree_depth sizes a buffer, so it is static)
+NUTS_MENU = [("scalar", 5, True), ("flat2", 1, True), ("flat2", 6, False), ("flat3", 4, True),
+             ("dict3", 3, False), ("nest4", 5, True)]
 
 
 def nuts_recipes(tier):
@@ -1074,7 +1075,7 @@ SUBS = [
              "the stable range; non-trivial = accept decision asserted, L >= 2, non-quadratic or dimension >= 2"),
     Sub(name="nuts_tree", check=check_nuts, strategy=nuts_recipes, quick=300, thorough=9000, shards=3, jax=True,
         budget_quick=110.0,
-        rule="generate_nuts_tree on 8 (layout, max_tree_depth, bias_transition) configurations: left/right/candidate on "
+        rule="generate_nuts_tree on 6 (layout, max_tree_depth, bias_transition) configurations: left/right/candidate on "
              "the reference orbit of the initial point, 2**depth points around index 0, logweight == logsumexp(-H), "
              "turning flag, every merged doubling complete/non-turning/non-diverging, a reason for stopping exists, "
              "diverging flag; non-trivial = depth >= 2 and the tree extends in both time directions"),
